@@ -374,7 +374,7 @@ def behaviour_to_script(beh):
 
 
 def simulate_scripts(spec, num, depth, seed):
-    behs = tlc.simulate(SPEC_DIR, "MCLtssm", sim_cfg(spec), num=num, depth=depth, seed=seed, timeout=600)
+    behs = tlc.simulate(SPEC_DIR, "MCLtssm", sim_cfg(spec), num=num, depth=depth, seed=seed, timeout=3000)
     return [behaviour_to_script(b) for b in behs]
 
 
@@ -631,7 +631,7 @@ def _run_tour():
                               SentVals="{0, 10, 16, 20}"))
     with tlc.scratch("tlc-tour-") as d:
         f = os.path.join(d, "tour.json")
-        res = tlc.model_check(SPEC_DIR, "LtssmTour", cfg, workers=1, timeout=900, env={"TOUR_FILE": f}, coverage=False)
+        res = tlc.model_check(SPEC_DIR, "LtssmTour", cfg, workers=1, timeout=3000, env={"TOUR_FILE": f}, coverage=False)
         with open(f) as fh:
             tour = json.load(fh)
     return res, tour
@@ -642,7 +642,7 @@ def _verdict_pass(rep, items, cross):
     the traces in `cross` (indices into items), whose verdicts must agree with those of the compressed traces."""
     logs = [{"loosen": m["loosen"], "steps": t} for t, m in items]
     logs += [{"loosen": items[k][1]["loosen"], "steps": expand(items[k][0])} for k in cross]
-    verdicts, res = tlc.validate_traces(SPEC_DIR, "LtssmTrace", trace_cfg(False), logs, timeout=1800)
+    verdicts, res = tlc.validate_traces(SPEC_DIR, "LtssmTrace", trace_cfg(False), logs, timeout=6000)
     ok = steps = 0
     for (tr, meta), (matched, status) in zip(items, verdicts):
         if status == "ok" and matched == len(tr):
@@ -760,7 +760,7 @@ def check_C41(rep):
     # 4. validation: verdict pass (monitors only) and, concurrently, drift pass (reference machine in lock-step)
     rep.add_eval(sum(b.cycles for b in benches.values()))
     lock_job = pool.submit(tlc.validate_traces, SPEC_DIR, "LtssmTrace", trace_cfg(True),
-                           [{"loosen": m["loosen"], "steps": t} for t, m in items], 1800)
+                           [{"loosen": m["loosen"], "steps": t} for t, m in items], 6000)
     cross, budget = [], (10000 if quick else 80000)
     for k, (tr, meta) in enumerate(items):
         c = trace_cycles(tr)
